@@ -884,7 +884,7 @@ def _ws_files(wss: List[WS]) -> Dict[str, str]:
 SIZES = {
     # random ws, special ws (each gets a twin), random twins, optional -O configs per target, variants per unit, schedules, schedule length
     "quick": dict(n_random=8, n_special=2, n_rtwin=3, nopt=1, nvar=2, n_sched=36, sched_len=20),
-    "thorough": dict(n_random=70, n_special=24, n_rtwin=20, nopt=3, nvar=4, n_sched=420, sched_len=30),
+    "thorough": dict(n_random=44, n_special=14, n_rtwin=12, nopt=2, nvar=3, n_sched=400, sched_len=30),
 }
 
 
